@@ -22,7 +22,7 @@ WHAT = {K_ADOPT: 'SlotChain.Entry stores the *TokenResult a blocking rule slot r
                  'object: a slot that answers with one pre-built "blocked" result blocks only the first request (afterwards its object reads "pass" and '
                  'every request is admitted), and a slot-owned object can end up in two pooled contexts, so that a passing slot which returns the '
                  'context\'s result is seen blocking with another entry\'s error'}
-BMS, BMW = ['fresh', 'ctx', 'own', 'const'], [3, 3, 2, 1]
+BMS, BMW = ['fresh', 'ctx', 'own', 'const', 'partial'], [3, 3, 2, 1, 3]
 ORDER_POOLS = [[1, 2], [0, 1000, 2000], [5, 5, 7], [0, 2147483647], [1000, 1000, 1000, 3000], [3, 2, 1]]
 
 
@@ -128,6 +128,15 @@ def directed(first_tr):
         out.append([dict(op='new', tr=tr, mode='chain', t=100, nodes=[]), dict(op='slot', k='rule', ord=1, beh='ctx'),
                     dict(op='slot', k='rule', ord=2, beh='block', bm=bm), dict(op='slot', k='stat', ord=1, beh='panic'),
                     E(), E(), dict(op='exit', id=1, e=''), E(), dict(op='exit', id=2, e=''), E(), E(), dict(op='exit', id=3, e=''), E()])
+        tr += 1
+    # a scripted blocker (full cause, written into the context's own result) in front of a slot that blocks through the
+    # partial helper ResetToBlocked(type): entry 1 is blocked by the first, later entries reuse its pooled context and are
+    # blocked by the second, whose error must name neither a rule nor a snapshot
+    S = lambda so: dict(op='entry', res='r1', b=1, inb=False, so=so, xh='')
+    for bm1 in ('ctx', 'fresh', 'own'):
+        out.append([dict(op='new', tr=tr, mode='chain', t=100, nodes=[]), dict(op='slot', k='rule', ord=1, beh='script', bm=bm1),
+                    dict(op='slot', k='rule', ord=2, beh='block', bm='partial'), dict(op='slot', k='stat', ord=1, beh='pass'),
+                    S('block'), S('pass'), S('block'), S('pass'), S('pass')])
         tr += 1
     return out
 
